@@ -40,6 +40,19 @@ CHECKS["C05"] = dict(
     design_ref="DESIGN.md section 4 (C05)",
 )
 
+CHECKS["C09"] = dict(
+    category="proof",
+    text="Integrated Wiener priors: cholesky_hilbert, system_matrices_1d_iwp, preconditioner_taylor and transition() of the three factorisations (priors built by the real constructors inside the trace) are verified exactly: after removing the preconditioner the transition is (exp(hN) (x) I, 0, sigma^2 base^2 (x) exact Gramian) for all h>0, scales; transitions over h1 then h2 compose to h1+h2.",
+    note="orders q are enumerated (quick q<=3, thorough q<=10), d<=2; sqrt(odd) are algebraic atoms, qr_r is a kernel axiom; exponential / Ornstein-Uhlenbeck / Matern priors and the Pade-Legendre tables are NOT yet under contract in this check (see DESIGN.md); 'working precision' of truncated approximations is not decidable in real arithmetic",
+    design_ref="DESIGN.md section 4 (C09)",
+)
+CHECKS["C10"] = dict(
+    category="proof",
+    text="jetexpand_ode_unroll / padded_scan / via_jvp / doubling_unroll are verified to return the exact solution derivatives for every polynomial vector field (symbolic coefficients, explicit time dependence) of the enumerated degree/dimension/order, every initial value and time, flat and pytree states; oracle: total-derivative recursion via nested jax.jvp.",
+    note="polynomial degree/dimension/number of coefficients are enumerated per instance; jax.experimental.jet and jax.jvp of polynomial primitives are traced by real JAX (trusted); jetexpand_residual (Gauss-Newton) is not covered here",
+    design_ref="DESIGN.md section 4 (C10)",
+)
+
 NOT_APPLICABLE = {
     "C01": "global accuracy / convergence order against the true ODE solution is not a postcondition of one call nor a data-structure invariant; no contract over the code implies it (DESIGN section 4, C01)",
 }
